@@ -263,6 +263,18 @@ type painter struct {
 	ctxOf map[int]int
 	// parentCtx[id] for context roots = id of the real context whose step 3/5/7/8/9 paints it
 	nctx int
+	// olCtx[id] = id of the (pseudo) context root whose step 10 paints the outline of box id
+	olCtx map[int]int
+}
+
+func (p *painter) markOl(n *Node, root int) {
+	p.olCtx[n.ID] = root
+	for _, c := range n.Kids {
+		if p.hoisted(c) || c.floated() || c.disp() == "iblock" {
+			continue
+		}
+		p.markOl(c, root)
+	}
 }
 
 // establishes a real stacking context
@@ -313,6 +325,7 @@ func (p *painter) setClass(n *Node, c string, ctx *Node) {
 // context should be considered part of the parent stacking context" (pseudo).
 func (p *painter) ctx(n *Node, real bool) {
 	p.nctx++
+	p.markOl(n, n.ID)
 	inline := n.disp() == "inline"
 	// steps 1, 2: background and border of the element forming the context
 	if !inline {
@@ -485,11 +498,16 @@ func (p *painter) outlines(n *Node) {
 // expected returns the paint sequence of the document under a variant, plus the step class of
 // every box (for evidence counters).
 func expected(body *Node, roots []*Node, v variant) (seq []Key, class map[int]string, ctxOf map[int]int) {
+	seq, class, ctxOf, _ = expectedFull(body, roots, v)
+	return
+}
+
+func expectedFull(body *Node, roots []*Node, v variant) (seq []Key, class map[int]string, ctxOf, olCtx map[int]int) {
 	b := bodyNode(body, roots)
 	root := &Node{ID: -1, Disp: "block", Kids: []*Node{b}}
-	p := &painter{v: v, class: map[int]string{}, ctxOf: map[int]int{}}
+	p := &painter{v: v, class: map[int]string{}, ctxOf: map[int]int{}, olCtx: map[int]int{}}
 	p.ctx(root, true)
-	return p.seq, p.class, p.ctxOf
+	return p.seq, p.class, p.ctxOf, p.olCtx
 }
 
 // bodyNode returns the body element (id 0: position / z-index / opacity only, paints nothing)
